@@ -128,9 +128,10 @@ func c18(e *Env) {
 	ob2b := r.Ob("R2", "PortInfo.joinSep←join:(…)", "the separator stored in PortInfo comes from the capture group of the `join:(…)` pattern of the placeholder")
 	if ip := p.DeclaredMethod("scipipe", "Process", "initPortsFromCmdPattern"); ip != nil {
 		found := false
-		for _, b := range ip.Blocks {
-			for _, in := range b.Instrs {
-				st, ok := in.(*ssa.Store)
+		if gi := e.XG(ip); gi != nil {
+			fsy := e.fsym()
+			for _, n := range gi.Nodes {
+				st, ok := n.Instr.(*ssa.Store)
 				if !ok {
 					continue
 				}
@@ -139,9 +140,9 @@ func c18(e *Env) {
 					continue
 				}
 				found = true
-				s := sy.InFunc(ip, st.Val).String()
+				s := fsy.InCtx(n.Ctx, st.Val).String()
 				okS := strings.Contains(s, "FindStringSubmatch(regexp.MustCompile(\"join:(") && strings.HasSuffix(s, "[1]")
-				ob2b.Check(okS, e.where(st), trunc(s, 120), "joinSep is "+trunc(s, 160))
+				ob2b.Check(okS, gi.Where(n), trunc(s, 120), "joinSep is "+trunc(s, 160))
 			}
 		}
 		if !found {
@@ -165,32 +166,20 @@ func c18(e *Env) {
 	}
 	ob3b := r.Ob("R3", "audit-builder:Upstream(join)", "every member of the sub-stream is recorded as upstream in the task's audit record")
 	if sp := e.spine(); sp != nil {
-		if _, bctx := e.auditBuilder(); bctx != nil {
+		if bfn, _ := e.auditBuilder(); bfn != nil {
 			found := false
-			for _, n := range sp.g.Nodes {
-				mu, ok := n.Instr.(*ssa.MapUpdate)
-				if !ok {
+			for _, u := range e.recordUpdates() {
+				if u.field != "Upstream" {
 					continue
 				}
-				in := false
-				for c := n.Ctx; c != nil; c = c.Parent {
-					if c == bctx {
-						in = true
-					}
-				}
-				if f := fieldOfLoad(mu.Map); !in || f == nil || f.Name() != "Upstream" {
-					continue
-				}
-				k := sy.InCtx(n.Ctx, mu.Key).String()
+				k := u.key.String()
 				if strings.Contains(k, "subStreamIPs[") {
 					found = true
-					okL := true
-					for _, l := range core.LoopsOf(mu) {
-						if ex := p.EarlyExits(l); len(ex) > 0 {
-							okL = false
-						}
+					okL := false
+					if la, ok := e.loopOver(sp.g, u.n, "subStreamIPs"); ok {
+						okL = e.loopHarmlessExits(sp.g, la)
 					}
-					ob3b.Check(okL && core.InnermostLoop(mu) != nil, sp.g.Where(n), "Upstream["+trunc(k, 80)+"] for every member", "the loop over the members can be left early or is missing")
+					ob3b.Check(okL, sp.g.Where(u.n), "Upstream["+trunc(k, 80)+"] for every member", "the loop over the members can be left early or is missing")
 				}
 			}
 			if !found {
